@@ -14,6 +14,7 @@ DEFAULT_SKIP = {
     'hdr_len_big': True,            # F11 header length > sizeof(VBIPROXY_MSG): assert in vbi_proxy_msg_handle_read
     'strict_oob': True,             # F4 SERVICE_REQ strict is not clamped
     'unheld_return': True,          # F5 NOTIFY(TOKEN) from a client that does not hold the token -> assert in get_token_owner
+    'ignore_reclaim': True,         # F14 token taken from a holder whose reclaim is pending (library clients answer reclaims, no prio > background)
     'lib_ioctl': True,              # F12 vbi_proxy_client_device_ioctl() writes one byte past its message buffer (client library)
     'update_during_token_wait': True,  # F13 TOKEN_IND arriving inside vbi_capture_update_services() makes the library drop the connection
     'thread_start_race': True,      # F9 acquisition thread runs before max_lines is set when the first frame arrives at once
@@ -397,9 +398,14 @@ def witness(rng, idx, total_ms, background):
 
 def token_lib_client(rng, idx, total_ms, skip, fz):
     ops = [['C', services(rng, allow_unsupported=False), 0, 5, 0]]
-    ops.append(['O', rng.choice([0, 1, 1, 2, 3])])
-    ops.append(['G', rng.choice([0, 0, 0, 1, 2])])
+    orc = rng.choice([0, 1, 1, 2, 3])
     prio = rng.choice([1, 1, 1, 1, 1, 1, 2, 3, 0])
+    if skip.get('ignore_reclaim') and (orc == 0 or prio > 1):
+        fz.excluded += 1
+        orc = rng.choice([1, 3]) if orc == 0 else orc
+        prio = 1
+    ops.append(['O', orc])
+    ops.append(['G', rng.choice([0, 0, 0, 1, 2])])
     t = 0
     for rnd in range(rng.choice([1, 1, 2, 3])):
         ops.append(['Q', prio, rng.choice([0, 0x10, 0x10, 0x20, 0x40]), rng.choice([0, 0, 0, 1, 2]), 1])
